@@ -622,8 +622,15 @@ def run(scen, ctx):
                             d2 = {'raises': map_exc(e)}
                     out = {'x': ctx.enc(x), 'd': ctx.enc(d), 'x2': r2, 'd2': d2}
                     scen['_intermediate'] = [x, d]
+        orc = {}
+        for name in scen.get('oracles', []):
+            try:
+                orc[name] = ORACLES[name](ctx, scen, T, conv, val, out)
+            except Exception as e:  # noqa  (an oracle crash is a harness problem, reported as such)
+                orc[name] = 'ORACLE-ERROR ' + ''.join(traceback.format_exception_only(type(e), e)).strip()
         if snapshot(val) != snap:
-            out = {'MUTATED_INPUT': True, 'out': out}
+            orc['c09'] = f'the argument was modified: now {val!r}'
+        scen['_oracle'] = orc
         return out
     if op == 'into_dyn':
         val = ctx.dec(scen['val'])
@@ -712,3 +719,283 @@ def expand_segments(ctx, segs):
         elif 'cause' in s:
             parts.append(s['cause'][1])
     return canon_text(''.join(parts).rstrip('\n'))
+
+
+# ------------------------------------------------------------------------------------------------
+# the properties observed DIRECTLY on the implementation (no model involved); used on every scenario
+# and by the failing-input search.  Each returns None (holds here) or a short description.
+def _try(conv, val):
+    try:
+        return ('ok', conv.try_convert(val))
+    except ParseInterrupt:
+        return ('interrupt', None)
+    except BaseException as e:  # noqa
+        return ('leak', e)
+
+
+def _col(conv, val):
+    try:
+        return ('ok', conv.collect_errors(val))
+    except ParseInterrupt:
+        return ('interrupt', None)
+    except BaseException as e:  # noqa
+        return ('leak', e)
+
+
+def oracle_c03(ctx, scen, T, conv, val, out):
+    t, c = _try(conv, val), _col(conv, val)
+    if t[0] == 'ok' and c[0] == 'ok' and c[1] is None:
+        return None
+    if t[0] == 'interrupt' and c[0] == 'ok' and c[1] is not None:
+        return None
+    if t[0] == 'leak':
+        return None   # an escaping exception is C04's subject
+    return f'fast pass: {t[0]}, diagnostic pass: {c[0]} {"tree" if c[0] == "ok" and c[1] is not None else c[1]!r}'
+
+
+def oracle_c04(ctx, scen, T, conv, val, out):
+    if isinstance(out, dict) and 'raises' in out:
+        return f"{out['raises']} escaped from_data"
+    return None
+
+
+def _same_tree(ctx, a, b):
+    return canon(enc_tree(ctx, a)) == canon(enc_tree(ctx, b))
+
+
+def c07_check(ctx, conv, val, node, path=()):
+    """the tree `node` reported by `conv` for `val` is assembled from the sub-reports (recursively)"""
+    from pane.converters import (UnionConverter, TaggedUnionConverter, TupleConverter, SequenceConverter, StructConverter,
+                                 DictConverter, ConditionalConverter, DelegateConverter, EnumConverter, data_is_sequence, data_is_mapping)
+    from pane.classes import PaneConverter
+    from pane.errors import SumErrorNode, ProductErrorNode, DuplicateKeyError, WrongTypeError
+    where = '/'.join(map(str, path)) or '<root>'
+    if node is None:
+        return None
+    if isinstance(conv, TaggedUnionConverter):
+        return None
+    if isinstance(conv, UnionConverter) and conv.constructor is None:
+        if not isinstance(node, SumErrorNode):
+            return f'{where}: union reported {type(node).__name__}, not a sum'
+        if len(node.children) != len(conv.converters):
+            return f'{where}: sum has {len(node.children)} children for {len(conv.converters)} members'
+        for i, (c, ch) in enumerate(zip(conv.converters, node.children)):
+            own = _col(c, val)
+            if own[0] != 'ok' or not _same_tree(ctx, own[1], ch):
+                return f'{where}: child {i} of the sum is not member {i}\'s own report'
+            r = c07_check(ctx, c, val, ch, path + (f'|{i}',))
+            if r:
+                return r
+        return None
+    if isinstance(conv, (ConditionalConverter, DelegateConverter, EnumConverter)):
+        inner = getattr(conv, 'inner', None) or getattr(conv, 'inner_conv', None)
+        if _try(inner, val)[0] == 'interrupt':
+            own = _col(inner, val)
+            if own[0] != 'ok' or not _same_tree(ctx, own[1], node):
+                return f'{where}: wrapper did not pass the inner type\'s report through'
+            return c07_check(ctx, inner, val, node, path)
+        return None
+    if not isinstance(node, ProductErrorNode):
+        # leaves record the offending sub-value itself
+        if isinstance(node, WrongTypeError) and isinstance(conv, (TupleConverter, SequenceConverter, StructConverter, DictConverter, PaneConverter)) \
+                and snapshot(node.actual) != snapshot(val) and node.actual is not val:
+            return f'{where}: leaf records {node.actual!r}, not the offending value {val!r}'
+        return None
+    if isinstance(conv, (TupleConverter, SequenceConverter)):
+        items = list(val)
+        convs = conv.converters if isinstance(conv, TupleConverter) else [conv.v_conv] * len(items)
+        for i, (c, v) in enumerate(zip(convs, items)):
+            own = _col(c, v)
+            if own[0] != 'ok':
+                return f'{where}: element {i} report raised'
+            if (own[1] is None) != (i not in node.children):
+                return f'{where}: child {i} present={i in node.children} but element rejected on its own={own[1] is not None}'
+            if own[1] is not None:
+                if not _same_tree(ctx, own[1], node.children[i]):
+                    return f'{where}: child {i} differs from the element\'s own report'
+                r = c07_check(ctx, c, v, node.children[i], path + (i,))
+                if r:
+                    return r
+        if set(node.children) - set(range(len(items))):
+            return f'{where}: children keyed by non-positions {set(node.children) - set(range(len(items)))}'
+        if snapshot(node.actual) != snapshot(val):
+            return f'{where}: product node records a different value'
+        return None
+    if isinstance(conv, StructConverter):
+        exp_extra = {k for k in val if k not in conv.fields}
+        exp_missing = set(conv.fields) - set(val) - conv.opt_fields
+        if set(node.extra) != exp_extra or set(node.missing) != exp_missing:
+            return f'{where}: extra/missing {set(node.extra)}/{set(node.missing)} expected {exp_extra}/{exp_missing}'
+        for k, v in val.items():
+            if k in conv.fields:
+                own = _col(conv.field_converters[k], v)
+                if (own[1] is None) != (k not in node.children):
+                    return f'{where}: child {k!r} presence wrong'
+                if own[1] is not None:
+                    if not _same_tree(ctx, own[1], node.children[k]):
+                        return f'{where}: child {k!r} differs from the field\'s own report'
+                    r = c07_check(ctx, conv.field_converters[k], v, node.children[k], path + (k,))
+                    if r:
+                        return r
+        return None
+    if isinstance(conv, PaneConverter):
+        if data_is_mapping(val):
+            seen = set()
+            exp_extra = set()
+            for k, v in val.items():
+                try:
+                    idx = conv.field_map.get(k)
+                except TypeError:
+                    idx = None
+                if idx is None:
+                    if not conv.opts.allow_extra:
+                        exp_extra.add(k)
+                    continue
+                f = conv.fields[idx]
+                if f.name in seen:
+                    if not isinstance(node.children.get(k), DuplicateKeyError):
+                        return f'{where}: second key {k!r} for field {f.name} is not reported as duplicate'
+                    continue
+                seen.add(f.name)
+                own = _col(conv.field_converters[idx], v)
+                if (own[1] is None) != (k not in node.children):
+                    return f'{where}: child {k!r} presence wrong'
+                if own[1] is not None:
+                    if not _same_tree(ctx, own[1], node.children[k]):
+                        return f'{where}: child {k!r} differs from the field\'s own report'
+                    r = c07_check(ctx, conv.field_converters[idx], v, node.children[k], path + (k,))
+                    if r:
+                        return r
+            exp_missing = {f.name for f in conv.fields if f.init and f.name not in seen and not f.has_default()}
+            if set(node.extra) != exp_extra or set(node.missing) != exp_missing:
+                return f'{where}: extra/missing {set(node.extra)}/{set(node.missing)} expected {exp_extra}/{exp_missing}'
+            return None
+        if data_is_sequence(val):
+            convs = [c for f, c in zip(conv.fields, conv.field_converters) if f.init]
+            for i, (c, v) in enumerate(zip(convs, val)):
+                own = _col(c, v)
+                if (own[1] is None) != (i not in node.children):
+                    return f'{where}: child {i} presence wrong'
+                if own[1] is not None:
+                    if not _same_tree(ctx, own[1], node.children[i]):
+                        return f'{where}: child {i} differs from the field\'s own report'
+                    r = c07_check(ctx, c, v, node.children[i], path + (i,))
+                    if r:
+                        return r
+            return None
+    if isinstance(conv, DictConverter):
+        strs = [str(k) for k in val]
+        if len(set(strs)) != len(strs):
+            return None     # known finding N7: children keyed by str(k) collide
+        for k, v in val.items():
+            kn, vn = _col(conv.k_conv, k)[1], _col(conv.v_conv, v)[1]
+            if (kn is None and vn is None) != (str(k) not in node.children):
+                return f'{where}: child {k!r} presence wrong'
+            if kn is not None and vn is not None:
+                continue    # known finding N7: one node per entry, the value's report overwrites the key's
+            own = vn if vn is not None else kn
+            if own is not None:
+                if not _same_tree(ctx, own, node.children[str(k)]):
+                    return f'{where}: child {k!r} differs from the entry\'s own report'
+                r = c07_check(ctx, conv.v_conv if vn is not None else conv.k_conv, v if vn is not None else k, node.children[str(k)], path + (str(k),))
+                if r:
+                    return r
+        return None
+    return None
+
+
+def oracle_c07(ctx, scen, T, conv, val, out):
+    t = _try(conv, val)
+    if t[0] != 'interrupt':
+        return None
+    c = _col(conv, val)
+    if c[0] != 'ok' or c[1] is None:
+        return None
+    return c07_check(ctx, conv, val, c[1])
+
+
+def oracle_c08(ctx, scen, T, conv, val, out):
+    t = _try(conv, val)
+    if t[0] != 'interrupt':
+        return None
+    c = _col(conv, val)
+    if c[0] != 'ok' or c[1] is None:
+        return None
+    try:
+        a = str(c[1])
+        b = str(c[1])
+    except BaseException as e:  # noqa
+        return f'rendering raised {type(e).__name__}: {e}'
+    if a != b:
+        return 'rendering is not deterministic'
+    return c08_mentions(c[1], a)
+
+
+def c08_mentions(node, text, sum_depth=0):
+    from pane.errors import SumErrorNode, ProductErrorNode, DuplicateKeyError, WrongTypeError, ConditionFailedError, WrongLenError
+    if isinstance(node, (WrongTypeError, ConditionFailedError, WrongLenError)):
+        if node.expected not in text:
+            return f'leaf expectation {node.expected!r} not in the message'
+        cause = getattr(node, 'cause', None)
+        if cause is not None:
+            msg = ''.join(cause.format_exception_only()).strip().splitlines()[-1]
+            if msg not in text:
+                return f'cause {msg!r} not in the message'
+        return None
+    if isinstance(node, DuplicateKeyError):
+        return None if str(node.key) in text else f'duplicate key {node.key!r} not named'
+    if isinstance(node, ProductErrorNode):
+        for k, ch in node.children.items():
+            if str(k) not in text:
+                return f'path component {k!r} not in the message'
+            r = c08_mentions(ch, text, sum_depth)
+            if r:
+                return r
+        for m in node.missing:
+            if (m if isinstance(m, str) else '/'.join(m)) not in text:
+                return f'missing field {m!r} not named'
+        for x in node.extra:
+            if str(x) not in text:
+                return f'unexpected field {x!r} not named'
+        return None
+    if isinstance(node, SumErrorNode):
+        for ch in node.children:
+            r = c08_mentions(ch, text, sum_depth + 1)
+            if r:
+                return r
+    return None
+
+
+def oracle_c11(ctx, scen, T, conv, val, out):
+    from pane.converters import UnionConverter, TaggedUnionConverter
+    if not isinstance(conv, UnionConverter) or isinstance(conv, TaggedUnionConverter) or conv.constructor is not None:
+        return None
+    rs = [_try(c, val) for c in conv.converters]
+    u = _try(conv, val)
+    if any(r[0] == 'leak' for r in rs) or u[0] == 'leak':
+        return None
+    first = next((i for i, r in enumerate(rs) if r[0] == 'ok'), None)
+    if first is None:
+        return None if u[0] == 'interrupt' else 'no member accepts but the union does'
+    if u[0] != 'ok':
+        return f'member {first} accepts but the union rejects'
+    if canon(ctx.enc(u[1])) != canon(ctx.enc(rs[first][1])) or type(u[1]) is not type(rs[first][1]):
+        return f'union result {u[1]!r} is not what the left-most accepting member {first} produces ({rs[first][1]!r})'
+    # serialisation uses a member that accepts the value
+    x = u[1]
+    try:
+        d = conv.into_data(x)
+    except BaseException:  # noqa
+        return None
+    acc = [c for c in conv.converters if _try(c, x)[0] == 'ok']
+    if acc:
+        try:
+            ok = any(canon(ctx.enc(c.into_data(x))) == canon(ctx.enc(d)) for c in acc)
+        except BaseException:  # noqa
+            ok = True
+        if not ok:
+            return 'the union serialised the value with a member that does not accept it'
+    return None
+
+
+ORACLES = {'c03': oracle_c03, 'c04': oracle_c04, 'c07': oracle_c07, 'c08': oracle_c08, 'c11': oracle_c11}
